@@ -17,7 +17,8 @@ ENGINE = "E1"
 TECHNIQUE = "exhaustive enumeration of table rows x legal arguments: library constructor vs independent table-driven encoder, and reference frame -> library decoder"
 RULE = ("every row of the reference command table x every destination / instance byte / parameter (tier-dependent "
         "for instance bytes and two-byte parameters) in both directions, all event classes x 5 schemes x fields x data, "
-        "per-class flags, and the reverse inclusion (every library command class has a row); "
+        "per-class flags, the reverse inclusion (every library command class has a row), and one frame per row decoded in a fresh "
+        "interpreter that imported the packages dali.gear / dali.device only; "
         "distinct = distinct (module, class) pairs exercised")
 ASSUMPTIONS = [
     "rows tagged 'std' (parts 102, 103, 207, 209, 301, 303, 304) are transcribed from the standard and are an independent oracle; rows tagged 'pinned' (parts 202, 205, 206 and three send-twice flags) are a regression oracle only",
@@ -38,6 +39,7 @@ def shards(tier):
         for sch in S.EVENT_SCHEMES:
             out.append(("event", ec[1], sch, tier, ec[0], ec[2]))
     out.append(("inclusion",))
+    out.append(("pkgimport",))
     return out
 
 
@@ -160,6 +162,45 @@ def run_shard(shard):
                 res["evaluations"] += 1
         res["distinct"].add((mod, name, sch))
         sample(res, {"event": name, "scheme": sch})
+    elif k == "pkgimport":
+        # a FRESH interpreter that imports only the packages (dali.gear, dali.device) - as an application or a driver does -
+        # must decode every table row and every event type: the decoders register themselves on import
+        import json
+        import subprocess
+        import sys
+        from dalimc.core import repo
+        probes = []
+        for tab, r in S.all_rows():
+            desc = next(iter(S.row_descriptors(tab, r, "quick")))
+            bits, val = R.encode(desc)
+            probes.append([bits, val, (r[4] if tab == "GEAR_STD" else 0), r[0], r[1]])
+        for ec in S.EVENT_CLASSES:
+            if ec[1] == "UnknownEvent":
+                continue
+            v = S.event_expected(ec[0], ec[1], ec[2], ec[3], "instance", {"inum": 3}, 5 if ec[3] is None else None)
+            probes.append([24, v, 0, ec[0], ec[1]])
+        script = ("import sys, json\n"
+                  "import dali.gear, dali.device\n"
+                  "from dali.command import from_frame\n"
+                  "from dali.frame import ForwardFrame\n"
+                  "out = []\n"
+                  "for bits, val, dt, mod, name in json.load(sys.stdin):\n"
+                  "    c = from_frame(ForwardFrame(bits, val), devicetype=dt)\n"
+                  "    out.append([type(c).__module__, type(c).__name__])\n"
+                  "json.dump(out, sys.stdout)\n")
+        p = subprocess.run([sys.executable, "-c", script], input=json.dumps(probes), capture_output=True, text=True,
+                           env={"PYTHONPATH": repo.REPO, "PATH": "/usr/bin:/bin", "PYTHONHASHSEED": "0"}, timeout=120)
+        if p.returncode != 0:
+            add_violation(res, "C03:package-import:fails", f"import dali.gear, dali.device + decode failed: {p.stderr[-300:]}", {"t": "pkgimport"})
+        else:
+            for (bits, val, dt, mod, name), (gm, gn) in zip(probes, json.loads(p.stdout)):
+                res["evaluations"] += 1
+                if (gm, gn) != ("dali." + mod, name):
+                    add_violation(res, f"C03:package-import:{mod}.{name}",
+                                  f"after 'import dali.gear, dali.device' only, the table frame {bits}/{val:#x} (dt {dt}) of {mod}.{name} decodes to {gm}.{gn}",
+                                  {"t": "pkgimport"})
+            res["distinct"].add(("pkgimport", len(probes)))
+        sample(res, {"package_import_probe_frames": len(probes)})
     elif k == "inclusion":
         ev = {(e[0], e[1]) for e in S.EVENT_CLASSES}
         for c in Command._commands:
@@ -194,6 +235,8 @@ def replay(case):
         return run_shard(("dapc",))["violations"]
     elif t == "event":
         return run_shard(("event", case["name"], case["scheme"], "thorough", case.get("mod", ""), case.get("itype")))["violations"]
+    elif t == "pkgimport":
+        return run_shard(("pkgimport",))["violations"]
     else:
         return run_shard(("inclusion",))["violations"]
     return res["violations"]
